@@ -10,6 +10,7 @@ import (
 	"encoding/json"
 	"os"
 	"strconv"
+	"strings"
 )
 
 // ---- deterministic PRNG: splitmix64, one stream per run ----
@@ -89,6 +90,26 @@ func Protect(f func() string) (s string) {
 		}
 	}()
 	return f()
+}
+
+// ErrClass maps an error of the dns package to the class name the models use.
+func ErrClass(err error) string {
+	if err == nil {
+		return ""
+	}
+	m := err.Error()
+	for _, p := range [][2]string{
+		{"buffer size too small", "buf"}, {"domain must be fully qualified", "fqdn"},
+		{"bad rdata", "rdata"}, {"domain name exceeded", "longdomain"},
+		{"too many compression pointers", "pointers"}, {"bad extended rcode", "extrcode"},
+		{"bad rcode", "rcode"}, {"overflow", "overflow"}, {"bad rdlength", "rdlength"},
+		{"bad off", "badoff"}, {"nil rr", "nilrr"},
+	} {
+		if strings.Contains(m, p[0]) {
+			return p[1]
+		}
+	}
+	return "other"
 }
 
 // Main parses "<seed> <tier> <n>" and runs f.
